@@ -220,7 +220,7 @@ class AsyncSut:
         r = Req('http' if ws is None else 'websocket')
         hdrs = []
         for hk, hv in (headers or {}).items():
-            hdrs.append((hk.lower().encode('latin-1'), hv.encode('latin-1') if isinstance(hv, str) else hv))
+            hdrs.append((hk.lower().encode('latin-1'), hv.encode('utf-8') if isinstance(hv, str) else hv))
         if declared_len is not None:
             hdrs.append((b'content-length', str(declared_len).encode()))
         elif method == 'POST':
@@ -293,7 +293,7 @@ class AsyncSut:
     def headers(self, r):
         for ev in r.sr_calls:
             if ev.get('type') == 'http.response.start':
-                return [(a.decode('latin-1'), b.decode('latin-1')) for a, b in ev.get('headers', [])]
+                return [(a.decode('utf-8'), b.decode('utf-8')) for a, b in ev.get('headers', [])]
         return []
 
     def body(self, r):
